@@ -1,5 +1,5 @@
 """C09 — prune removes exactly finished work; pruned ids are gone for good."""
-import base64, json
+import base64, json, os
 from .. import common, framework, fndiff, cmdrun, gen, oracles, explore2
 from ..histories import run_history, replay_trace
 
@@ -203,8 +203,38 @@ def edge_between_prunes(ctx):
         st.close()
 
 
+def legacy_prune(ctx):
+    """`prune --yes` on a store whose log still has the legacy name: exactly the finished items go, everything else stays where every command finds it"""
+    st = cmdrun.Store(ctx.ergo, ctx.go, legacy=True)
+    trace = [{"store": "legacy log name events.jsonl"}]
+    try:
+        def ex(argv, stdin=None):
+            res = st.exec(argv, stdin); trace.append({"argv": argv, "stdin": None if stdin is None else stdin.decode(), "exit": res["exit"]}); return res
+        new = lambda kind, d: json.loads(ex(["--json", "new", kind], json.dumps(d).encode())["stdout"])["id"]
+        e = new("epic", {"title": "epic with an open child"})
+        keep = [new("task", {"title": "open child", "epic": e}), new("task", {"title": "loose todo"})]
+        gone = [new("task", {"title": "finished child", "epic": e}), new("task", {"title": "canceled"})]
+        ex(["--json", "set", gone[0]], b'{"state":"done"}'); ex(["--json", "set", gone[1]], b'{"state":"canceled"}')
+        dry = ex(["--json", "prune"])
+        res = ex(["--json", "--agent", "p", "prune", "--yes"])
+        ctx.count(1, key=("legacy-prune",))
+        g = st.graph()
+        if res["exit"] != 0 or "err" in g:
+            ctx.violation("C09 prune fails on a legacy-named store", (res["stderr"] or g.get("err", ""))[:200], {"trace": trace}); return
+        live = {t["id"] for t in g["graph"]["tasks"]}
+        listed = {i["id"] for i in json.loads(st.exec(["--json", "list", "--all"])["stdout"])}
+        if not set(keep + [e]) <= live or set(gone) & live or not set(keep) <= listed:
+            ctx.violation("C09 prune took the wrong set (legacy-named store)", "live after prune --yes: %s; expected %s to stay and %s to go; list --all shows %s" %
+                          (sorted(live), sorted(keep + [e]), sorted(gone), sorted(listed)), {"trace": trace}); return
+        if sorted(os.listdir(st.dir)) != sorted(set(os.listdir(st.dir)) - {"plans.jsonl"}) and "events.jsonl" in os.listdir(st.dir):
+            ctx.violation("C09 prune wrote to another log file than the one the store uses", "files in .ergo: %s" % sorted(os.listdir(st.dir)), {"trace": trace}); return
+    finally:
+        st.close()
+
+
 def run(ctx):
     edge_between_prunes(ctx)
+    legacy_prune(ctx)
     framework.check_facts(ctx, ctx.facts, ["lock_sites", "writer_calls", "with_lock"])
     import os
     os.environ["GOGC"] = "1"      # stress the Go runtime: collections (and finalizers) inside every lock section
